@@ -28,7 +28,7 @@ import numpy as np
 from . import common
 
 PID = "C13"
-OWN_V = ["Solvers/OrdLemmas", "Solvers/Thresh", "Solvers/ISTA", "Solvers/PSD", "Corr/CheckC13"]
+OWN_V = ["Solvers/OrdLemmas", "Solvers/Thresh", "Solvers/ISTA", "Solvers/PSD", "Solvers/ISTAComplex", "Corr/CheckC13"]
 
 # Proposed entry for known_findings.json (not yet integrated): genuine defect of the unchanged tree.
 PROPOSED_KNOWN = [{
@@ -477,17 +477,23 @@ def emit_kktR(cid, rc):
 
 
 def emit_istaC(cid, rc, kk):
+    """complex record for the PROVED model ISTAComplex.step_c / run_c / obj_c: the moduli of the vector the
+    implementation thresholds (numpy abs of z + alpha A^H (y - A z)) and of its iterates are supplied as exact
+    rationals and checked in Coq (m >= 0, |m^2 - (re^2+im^2)| <= 1e-12 (1 + re^2+im^2))."""
     p = rc["p"]
     j = rc["col"]
+    A, y = p["A"], p["y"][:, j]
     its = [rc["x0"]] + list(rc["its"])
     pairs = []
     for z, xn in zip(zs_of(rc), its[1:]):
-        pairs.append("(%s, %s)" % (common.vlit(z, True), common.vlit(xn, True)))
+        u = z + rc["alpha"] * (A.conj().T @ (y - A @ z))
+        pairs.append("(%s, %s, %s)" % (common.vlit(z, True), common.vlit(rc.get("mu_override", np.abs(u))), common.vlit(xn, True)))
+    traj = 0 if rc["mode"] != 0 else min(3, len(rc["its"]))
     return ("{| ic_id := %d%%nat; ic_n := %d%%nat; ic_mode := %d%%nat; ic_A := %s; ic_y := %s; ic_alpha := %s; ic_alphac := %s; "
-            "ic_eps := %s; ic_pairs := [%s]; ic_its := [%s]; ic_xi := %s; ic_xf := %s |}"
+            "ic_eps := %s; ic_pairs := [%s]; ic_its := [%s]; ic_traj := %d%%nat; ic_xi := %s; ic_xf := %s |}"
             % (cid, p["n"], rc["mode"], common.mlit(p["A"], True), common.vlit(p["y"][:, j], True), q(rc["alpha"]),
                q(alphac_of(p, rc["alpha"])), q(p["eps"]), ";\n ".join(pairs),
-               ";\n ".join(common.vlit(v, True) for v in its),
+               ";\n ".join("(%s, %s)" % (common.vlit(v, True), common.vlit(np.abs(v))) for v in its), traj,
                common.vlit(kk["xi"], True) if kk is not None else "[]",
                common.vlit(kk["xf"], True) if kk is not None else "[]"))
 
@@ -725,6 +731,7 @@ def main(tier):
     cc = {"kind": "run", "p": pcc, "mode": 0, "col": 0, "x0": np.zeros(2, dtype=complex), "alpha": 0.125,
           "its": [np.array([5.0 + 5.0j, 5.0]), np.array([5.0 + 5.0j, 5.0])]}
     itemsC.append(emit_istaC(9006, cc, None)); can["istaC"] = 9006
+    itemsC.append(emit_istaC(9007, dict(cc, mu_override=np.array([1.0, 1.0])), None))      # wrong supplied moduli: code 9 must come back
 
     names = {}
     names["thrR"] = write_files(d, "thrR", "ThrR", "tr_id", "checkThrR", [emit_thrR(c) for c in realc + [c0]], 12)
@@ -746,6 +753,9 @@ def main(tier):
         if cid not in fail[grp]:
             raise SystemExit("C13: canary %s/%d was not reported as failing: the pipeline is broken" % (grp, cid))
         del fail[grp][cid]
+    if 9 not in fail["istaC"].get(9007, []):
+        raise SystemExit("C13: canary istaC/9007 (wrong supplied moduli) was not rejected by the modulus check")
+    del fail["istaC"][9007]
 
     nviol0 = 0
     # ---- thresholds
@@ -787,6 +797,9 @@ def main(tier):
         budget[0] -= 1
         if 3 in codes and p["alpha"] is None:
             codes = [c for c in codes if c != 3]      # reported below as "default step size is not 1/lambda_max"
+        if 9 in codes:
+            R.violation("a supplied modulus (numpy abs of the implementation's complex values) fails m^2 = re^2+im^2 within 1e-12 in Coq (problem %d)" % p["id"],
+                        {"kind": "generator", "problem": pd, "codes": codes, "broken": "Corr.CheckC13.modsok"}, no_input=True)
         if 3 in codes or 4 in codes:
             R.violation("generator problem: step-size premise / shape check failed in Coq for problem %d (codes %s)" % (p["id"], codes),
                         {"kind": "generator", "problem": pd, "alpha_used": rc["alpha"], "codes": codes}, no_input=True)
@@ -927,8 +940,9 @@ def main(tier):
                              for k, v in (("under", (True, False, False)), ("square", (False, True, False)), ("over", (False, False, True)))},
                   "converged_ista": stats["conv"], "not_converged_skipped_for_kkt": stats["notconv"]},
         run_records=len([r_ for r_ in recs if r_["kind"] == "run"]), kkt_records=len([r_ for r_ in recs if r_["kind"] == "kkt"]),
-        not_decided="L1/2 prox claim of _halfthreshold (only its zeroing rule is modelled: Props.C13_half_partial); complex descent is checked on the "
-                    "implementation's iterates in Coq but proved only through soft_c_is_prox (no complex ista_descent theorem)",
+        not_decided="L1/2 prox claim of _halfthreshold (only its zeroing rule is modelled: Props.C13_half_partial); the complex theorems "
+                    "(C13_ista_c_descent / _run_monotone) take the moduli as supplied values with m*m = re^2+im^2: the executed instance meets this "
+                    "hypothesis only to 1e-12 relative (checked in Coq, code 9); no KKT/global-minimum theorem for complex data",
         t_python=round(t_py, 1), t_coq=round(t_coq, 1))
     sm = []
     for c in realc[:2]:
